@@ -366,10 +366,29 @@ func c04(r *vc.Run) int {
 		samples.Add(map[string]any{"plan": plan, "killed_by_signal": killed, "rows_at_death": len(rowsAtDeath), "claimed": nClaimed, "fresh": nFresh, "events_run1": len(ev1), "warc_records_run1": len(ix1.Records), "trailing_partial_members": len(ix1.TrailingPartial)})
 		os.RemoveAll(dir)
 	})
+	// queue-level histories with short restart delays (see c04queue.go)
+	qm := newMerged()
+	nq, hq := r.N(4, 24), r.N(15, 40)
+	parallel(nq, 8, func(i int) {
+		dir := filepath.Join(r.Scratch, fmt.Sprintf("c04q-%d", i))
+		sc := c04QueueScenario{Seed: r.Seed, Index: i, Histories: hq}
+		res := runChild(os.Getenv("VZ_BIN"), "c04-queue", sc, dir, 10*time.Minute)
+		absorb(r, qm, res, fmt.Sprintf("queue%d", i), sc, true)
+		os.RemoveAll(dir)
+	})
+	evaluations.Add(int64(qm.Evaluations))
+	for k := range qm.Distinct {
+		classes.Add("queue/" + k)
+	}
+	for _, s := range qm.Samples {
+		samples.Add(s)
+	}
 	cov := map[string]any{
+		"queue_histories":        qm.Evaluations,
+		"queue_events":           qm.Events,
 		"evaluations":            int(evaluations.Load()),
 		"distinct_nontrivial":    classes.Len(),
-		"rule":                   "one evaluation = one (run 1 dies, run 2 restarts the same job) pair; death = SIGKILL at the n-th hit of an instrumented point in the claim / insert / fetch / WARC-feedback / finish / delete / add paths, SIGKILL at a seeded random time, or a graceful stop at a trigger; distinct = distinct (death kind and point, killed by signal, CLAIMED rows present, FRESH rows present) classes",
+		"rule":                   "one evaluation = one (run 1 dies, run 2 restarts the same job) pair, or one queue-level history (Add/Get/Delete on the real sqlite queue, abandoned at an operation boundary and re-opened with lq.Init after 0-1100 ms, then drained and compared with a sequential reference model); death = SIGKILL at the n-th hit of an instrumented point in the claim / insert / fetch / WARC-feedback / finish / delete / add paths, SIGKILL at a seeded random time, or a graceful stop at a trigger; distinct = distinct (death kind and point, killed by signal, CLAIMED rows present, FRESH rows present) classes",
 		"samples":                samples.List(),
 		"queue_rows_checked":     int(rowsChecked.Load()),
 		"finished_seeds_checked": int(finishedChecked.Load()),
